@@ -77,6 +77,19 @@ fn value_for(key: u64, id: u32, mv: u8) -> EntryView {
     }
 }
 
+/// Identity of a stored value: the insert's id and its move selector. Two inserts may share an
+/// id ("twins": equal in kind, depths and evaluation, different move) but never id and selector.
+fn uid(id: u32, mv: u8) -> u32 {
+    id * 256 + mv as u32
+}
+
+fn uid_of(e: &EntryView) -> u32 {
+    let from: u8 = e.performed_move.origin().into();
+    let to: u8 = e.performed_move.destination().into();
+    let mv = (((to.wrapping_sub(8)) & 63) << 2) | (from & 3);
+    uid(e.evaluation as u32, mv)
+}
+
 fn do_op(table: &Table, thread: usize, op: &TOp) -> Rec {
     let inv = seq();
     let res = match op {
@@ -236,7 +249,7 @@ fn res_str(r: &Res) -> String {
         Res::Unit => "()".into(),
         Res::Count(n) => format!("{}", n),
         Res::Found(None) => "None".into(),
-        Res::Found(Some(e)) => format!("Some(id={})", e.evaluation),
+        Res::Found(Some(e)) => format!("Some(id={},mv={})", e.evaluation, uid_of(e) % 256),
     }
 }
 
@@ -270,7 +283,7 @@ fn check(case: &TableCase, obs: &Observed, v: &mut Vec<Violation>, stats: &mut R
     let mut by_id: HashMap<u32, (u64, EntryView)> = HashMap::new();
     for op in case.prefill.iter().chain(case.threads.iter().flatten()) {
         if let TOp::Ins { key, id, mv } = op {
-            by_id.insert(*id, (*key, value_for(*key, *id, *mv)));
+            by_id.insert(uid(*id, *mv), (*key, value_for(*key, *id, *mv)));
         }
     }
     let inserts: Vec<&Rec> = obs.recs.iter().filter(|r| matches!(r.op, TOp::Ins { .. })).collect();
@@ -279,7 +292,7 @@ fn check(case: &TableCase, obs: &Observed, v: &mut Vec<Violation>, stats: &mut R
         _ => unreachable!(),
     };
     let ins_id = |r: &Rec| match r.op {
-        TOp::Ins { id, .. } => id,
+        TOp::Ins { id, mv, .. } => uid(id, mv),
         _ => unreachable!(),
     };
     let route = |k: u64| obs.routes.get(&k).copied();
@@ -312,7 +325,7 @@ fn check(case: &TableCase, obs: &Observed, v: &mut Vec<Violation>, stats: &mut R
         match (&r.op, &r.res) {
             (TOp::Find { key }, Res::Found(Some(e))) => {
                 stats.eval("find-hit");
-                let id = e.evaluation as u32;
+                let id = uid_of(e);
                 match by_id.get(&id) {
                     Some((k2, val)) if k2 == key && val == e => {
                         // freshness: the insert must have been invoked before the find returned
@@ -422,7 +435,7 @@ fn check(case: &TableCase, obs: &Observed, v: &mut Vec<Violation>, stats: &mut R
                 v.push(Violation::new("C15", "route-function", "moved", format!("key {:#x} found in {:?}, alone it routes to {:?}", s.key, (s.table, s.bucket), b)));
             }
         }
-        let id = s.entry.evaluation as u32;
+        let id = uid_of(&s.entry);
         match by_id.get(&id) {
             Some((k, val)) if *k == s.key && *val == s.entry => {
                 let src = inserts.iter().find(|i| ins_id(i) == id).unwrap();
@@ -489,14 +502,14 @@ fn check(case: &TableCase, obs: &Observed, v: &mut Vec<Violation>, stats: &mut R
                     let want = route(*key).and_then(|b| model.get(&b)).and_then(|bk| bk.iter().find(|e| e.0 == *key)).map(|e| e.1);
                     if let Res::Found(got) = &r.res {
                         if *got != want {
-                            v.push(Violation::new("C15", "sequential-model", "find", format!("find({:#x}) = {:?}, model says {:?}", key, got.map(|e| e.evaluation), want.map(|e| e.evaluation))));
+                            v.push(Violation::new("C15", "sequential-model", "find", format!("find({:#x}) = {:?}, model says {:?} (id*256+move)", key, got.map(|e| uid_of(&e)), want.map(|e| uid_of(&e)))));
                         }
                     }
                 }
                 TOp::Entries => {}
             }
-            let mut m: Vec<(usize, usize, u64, i32)> = model.iter().flat_map(|(b, es)| es.iter().map(move |e| (b.0, b.1, e.0, e.1.evaluation))).collect();
-            let mut d: Vec<(usize, usize, u64, i32)> = dump.iter().map(|s| (s.table, s.bucket, s.key, s.entry.evaluation)).collect();
+            let mut m: Vec<(usize, usize, u64, u32)> = model.iter().flat_map(|(b, es)| es.iter().map(move |e| (b.0, b.1, e.0, uid_of(&e.1)))).collect();
+            let mut d: Vec<(usize, usize, u64, u32)> = dump.iter().map(|s| (s.table, s.bucket, s.key, uid_of(&s.entry))).collect();
             m.sort();
             d.sort();
             if m != d {
@@ -560,12 +573,12 @@ fn linearizable(hist: &[&Rec], slots: usize) -> bool {
             match (&r.op, &r.res) {
                 (TOp::Find { key }, Res::Found(got)) => {
                     let have = state.iter().find(|e| e.0 == *key).map(|e| e.1);
-                    if have == got.map(|e| e.evaluation) && go(hist, slots, done | (1 << i), state, memo) {
+                    if have == got.map(|e| uid_of(&e) as i32) && go(hist, slots, done | (1 << i), state, memo) {
                         return true;
                     }
                 }
-                (TOp::Ins { key, id, .. }, _) => {
-                    let val = *id as i32;
+                (TOp::Ins { key, id, mv }, _) => {
+                    let val = uid(*id, *mv) as i32;
                     if let Some(pos) = state.iter().position(|e| e.0 == *key) {
                         let old = state[pos].1;
                         state[pos].1 = val;
@@ -648,7 +661,18 @@ pub fn generate(rng: &mut Rng64, thorough: bool) -> TableCase {
         for _ in 0..nops {
             let r = rng.below(100);
             let key = *rng.pick(&pool);
-            if r < 55 {
+            if r < 8 && !ops.is_empty() {
+                // a twin: the same key stored again with a value that differs from an earlier
+                // one of this task only in its move
+                let earlier: Vec<(u64, u32, u8)> = ops.iter().filter_map(|o| if let TOp::Ins { key, id, mv } = o { Some((*key, *id, *mv)) } else { None }).collect();
+                if let Some(&(k, id, mv)) = earlier.last() {
+                    let mv2 = mv.wrapping_add(1 + rng.below(254) as u8);
+                    let dup = ops.iter().any(|o| matches!(o, TOp::Ins { id: i2, mv: m2, .. } if *i2 == id && *m2 == mv2));
+                    if !dup {
+                        ops.push(TOp::Ins { key: k, id, mv: mv2 });
+                    }
+                }
+            } else if r < 55 {
                 ops.push(TOp::Ins { key, id: next_id, mv: rng.below(256) as u8 });
                 next_id += 1;
             } else if r < 95 {
